@@ -62,7 +62,7 @@ func VerifH_C10_attr() {
 // VerifH_C10_json_shapes: findURLs and the JSON-in-JSON sniffing accept any value shape and any string.
 func VerifH_C10_json_shapes() {
 	s := verifrt.String("text", 6)
-	c19Alpha(s, "{}[]\"a")
+	c19Alpha(s, "{}[]\"a \n")
 	_ = isLikelyJSON(s)
 	links := make([]string, 0)
 	var v interface{}
